@@ -48,7 +48,7 @@ def parse_by_type(kind, values, default=None):
 
 
 class CfgImpl(object):
-    def __init__(self, world, table, defaults=None, with_defaults_key=True, spelling=None, underscore_socks=None):
+    def __init__(self, world, table, defaults=None, with_defaults_key=True, spelling=None, underscore_socks=None, mid=None):
         """
         table: ordered list of (name, initial values list)
         defaults: dict name -> list of default values (served through config/defaults)
@@ -79,6 +79,13 @@ class CfgImpl(object):
         self.boot = []
         self.cfg.post_bootstrap.addCallbacks(lambda c: self.boot.append('ok'), lambda f: self.boot.append(f))
         finish_bootstrap(self.proto)
+        if mid is not None:
+            # mid = (command prefix, fn): the configuration view is still being built when fn(sim) runs - Tor has not yet
+            # answered the command with that prefix
+            sim.hold_prefixes = [mid[0]]
+            sim.pump()
+            mid[1](sim)
+            sim.hold_prefixes = []
         sim.pump()
         self.base = len(sim.commands)
 
